@@ -385,14 +385,14 @@ Qed.
 
 Lemma struct_view_geom m objs pads p :
   hinv m objs pads -> view objs p -> p_valid p = true -> p_kind p = KStruct ->
-  p_size p = mkOS 0 0 \/
+  (p_size p = mkOS 0 0 /\ 0 <= p_seg p) \/
   exists h, In h objs /\ p_seg h = p_seg p /\ 0 <= DataSize (p_size p) /\ 0 <= PointerCount (p_size p) /\
     p_off h <= p_off p /\
     p_off p + DataSize (p_size p) + 8 * PointerCount (p_size p) <= obj_start h + r_size (obj_reg h) /\
     (forall q lo hi, In q (slots h) -> p_off p <= lo -> hi <= p_off p + DataSize (p_size p) -> hi <= snd q \/ snd q + 8 <= lo) /\
     (forall j, 0 <= j < PointerCount (p_size p) -> In (p_seg p, p_off p + DataSize (p_size p) + 8 * j) (slots h)).
 Proof.
-  intros H V Hv Ek. destruct V as [V|[[M V]|[(h & i & Hh & MA)|[(_ & V & _)|(V & _)]]]]; [congruence| | |left; exact V|congruence]; right.
+  intros H V Hv Ek. destruct V as [V|[[M V]|[(h & i & Hh & MA)|[(_ & V & _ & Sg)|(V & _)]]]]; [congruence| | |left; split; [exact V|exact Sg]|congruence]; right.
   - (* a table struct *)
     destruct (core_facts p) as (C1 & C2 & C3 & C4 & C5 & C6 & C7).
     destruct (hi_good _ _ _ H _ V) as [_ G]. destruct G as (Sh & _). apply (proj1 C7) in Sh. unfold shape_ok in Sh. rewrite Ek in Sh.
@@ -676,7 +676,7 @@ Lemma struct_data_write st objs pads p addr bs m1 :
   sinv (mkBSt (w_set_dst (st_w st) m1) (st_h st)) objs pads.
 Proof.
   intros [H P] Vw Hv Ek Hpos Hlo Hhi HW.
-  destruct (struct_view_geom _ _ _ p H Vw Hv Ek) as [E0|(ho & Hin & Eseg & D0 & P0 & Olo & Ohi & Hsep & _)].
+  destruct (struct_view_geom _ _ _ p H Vw Hv Ek) as [[E0 _]|(ho & Hin & Eseg & D0 & P0 & Olo & Ohi & Hsep & _)].
   { exfalso. rewrite E0 in Hhi. cbn [DataSize] in Hhi. lia. }
   destruct (obj_bounds _ _ _ _ H Hin) as (B1 & B2 & B3 & B4 & B5). rewrite Eseg in *.
   split; [|exact P]. cbn [st_h st_w w_dst w_set_dst].
@@ -698,7 +698,7 @@ Proof.
   intros H C Hq (hl & i & Hhl & MA) Hpc HW Hns.
   pose proof MA as (Hk & Hb & Hi & Hv & Es & Eo & Esz & Ek & Hm).
   assert (Vw : view objs src) by (right; right; left; exists hl, i; auto).
-  destruct (struct_view_geom _ _ _ src H Vw Hv Ek) as [E0|(ho & Hin & Eseg & D0 & P0 & Olo & Ohi & _)].
+  destruct (struct_view_geom _ _ _ src H Vw Hv Ek) as [[E0 _]|(ho & Hin & Eseg & D0 & P0 & Olo & Ohi & _)].
   { (* zero-sized member: the inline empty struct *)
     assert (Hsrc : p_valid src = false \/ In (core src) objs /\ p_member src = false \/
                    p_kind src = KStruct /\ os_isZero (p_size src) = true \/
@@ -832,7 +832,7 @@ Proof.
   { apply (f_equal fst) in HR. cbn [fst] in HR. apply Ok_inj in HR. subst p. apply view_null. }
   assert (Hval : p_valid (as_struct hp) = true) by (destruct (p_valid (as_struct hp)); auto; discriminate).
   destruct (as_struct_valid hp Hval) as [Eas Ek]. rewrite Eas in *.
-  destruct (struct_view_geom _ _ _ hp H V Hval Ek) as [E0|(ho & Hin & Eseg & D0 & P0 & Olo & Ohi & _ & Hsl)].
+  destruct (struct_view_geom _ _ _ hp H V Hval Ek) as [[E0 _]|(ho & Hin & Eseg & D0 & P0 & Olo & Ohi & _ & Hsl)].
   { exfalso. rewrite E0 in EE. cbn [PointerCount] in EE. rewrite Hval in EE. cbn [negb orb] in EE. lia. }
   destruct (obj_bounds _ _ _ _ H Hin) as (B1 & B2 & B3 & B4 & B5). rewrite Eseg in *.
   assert (PA : pointerAddress hp i = p_off hp + DataSize (p_size hp) + 8 * i).
